@@ -35,11 +35,16 @@ class NetlistSimplifyMixin:
         ic = None
         name = subset_list[0]
         elt = self.elements[name]
-        if elt.cpt.has_ic:
+        if elt.cpt.has_ic and (elt.type == 'C') != series:
+            # Parallel capacitors, series inductors: the common value
+            # (established by _check_ic), not the sum.
+            ic = expr(elt.cpt.args[1])
+        elif elt.cpt.has_ic:
             ic = expr(0)
             for name1 in subset_list:
                 ic += expr(self.elements[name1].cpt.args[1])
 
+        if ic is not None:
             if explain:
                 print('%s combined IC = %s' % (subset, ic))
 
